@@ -86,7 +86,16 @@ RadixSuffices ==
     /\ (IF RxOop > 0 THEN RxOop ELSE RxLen) >= wi
     /\ RxIm >= wi
 
-AllSuffice == MixedRadixSuffices /\ GoodThomasSuffices /\ RadersSuffices /\ BluesteinsSuffices /\ RadixSuffices
+\* ---- AVX mixed-radix stage Rxn (inner = w, total length hl * wl with hl = R) --------------------------------------
+AvIp  == RxLen + wo
+AvOop == IF wi > RxLen THEN wi ELSE 0
+AvIm  == RxLen + wi
+AvxRadixSuffices ==
+    /\ AvIp >= RxLen /\ AvIp - RxLen >= wo
+    /\ (IF AvOop > 0 THEN AvOop ELSE RxLen) >= wi
+    /\ AvIm >= RxLen /\ AvIm - RxLen >= wi
+
+AllSuffice == AvxRadixSuffices /\ MixedRadixSuffices /\ GoodThomasSuffices /\ RadersSuffices /\ BluesteinsSuffices /\ RadixSuffices
 
 \* C05, structural part: the advertised lengths are at most the node's length plus what the children need
 LinearGrowth == /\ MrIp <= MrLen + Max(hi, wo) /\ MrOop <= Max(hi, wi) /\ MrIm <= MrLen + Max(wi, hi)
